@@ -13,7 +13,8 @@ import numpy as np
 
 RULE = ("operation sequences of 1..5 filters (all 8 registered filters + custom_maze_filter, positional/keyword/default "
         "arguments, boundary parameters taken from the data: min = median/max/max+1 length, percentile 0/50/100/ties, "
-        "max_count 0/len/len+3/negative, thresholds None/0/1/2/5) over hand-built datasets of 0..12 SolvedMaze objects on "
+        "max_count 0/len/len+3/negative, thresholds None/0/1/2/5; custom filters followed by further filters, collection "
+        "repeated with inplace=False on an already collected dataset) over hand-built datasets of 0..12 SolvedMaze objects on "
         "2x2..4x4 (and non-square / mixed-shape) grids with planted exact duplicates, near duplicates (one flipped connection, "
         "one changed solution coordinate), the same object twice, all-equal lengths, real and fabricated generation_meta "
         "(missing / uncollectable values included); plus config-driven runs (generate + _apply_filters_from_config and the "
@@ -30,9 +31,10 @@ TRUSTED = ["harness/translate_filters.py (ast) regenerates the filter table (nam
            "the encoder `_enc_meta` classifies metadata values by Python type exactly as collect_generation_meta's isinstance chain does",
            "numpy's percentile / array comparison, json (inside deepcopy) are external parameters"]
 
+# keys of two defects found with this check and repaired in /repo (known_findings.txt: `fixed: property=C08 260593d / 9817574`);
+# the scenarios stay in the generator and the oracle names them again should a repair be reverted
 KNOWN_KEY_CUSTOM = "custom-filter-record-without-args"
 KNOWN_KEY_COLLECT = "collect-noop-returns-input"
-KNOWN_KEYS = {KNOWN_KEY_CUSTOM, KNOWN_KEY_COLLECT}
 
 # ----------------------------------------------------------------------------------------------------------------
 # encoding of real objects for the model / for comparison
@@ -392,7 +394,7 @@ def _oracle_step(ctx, case, step, op, snap, others, res, err):
     """judge one real operation against the property statement; `snap` = input before, `others` = snapshots of every
     dataset seen earlier (incl. the input), `res`/`err` = outcome"""
     def viol(what, key="unlisted"):
-        ctx.violate(f"{what} [op {step}: {op.get('name', op.get('fname'))} args={op.get('args')} kwargs={op.get('kwargs')}; "
+        ctx.violate(f"{what}{'' if key == 'unlisted' else ' (key=' + key + ')'} [op {step}: {op.get('name', op.get('fname'))} args={op.get('args')} kwargs={op.get('kwargs')}; "
                     f"input of {len(snap['mazes'])} mazes, lengths {snap['lens']}]", dict(case, failing_step=step), key=key)
     keep, tolerated = _oracle_select(op, snap)
     inplace = False
@@ -452,12 +454,15 @@ def _oracle_step(ctx, case, step, op, snap, others, res, err):
     # ---- provenance
     before = json.loads(snap["applied"])
     if op["kind"] == "custom":
-        rec = {"name": "__custom__:" + op["fname"], "kwargs": [[k, _enc_lit(_lit(v))] for k, v in op["kwargs"]]}
+        rec = {"name": "__custom__:" + op["fname"], "kwargs": [[k, _enc_lit(_lit(v))] for k, v in op["kwargs"]], "args": []}
+        if res.cfg.applied_filters and "args" not in res.cfg.applied_filters[-1]:
+            viol("custom_maze_filter recorded its application without an 'args' entry: the name-and-arguments record is incomplete "
+                 "and every later deepcopy/load of this config (any further filter) raises ValueError", key=KNOWN_KEY_CUSTOM)
+            return
     else:
         rec = {"name": op["name"], "kwargs": [[k, _enc_lit(_lit(v))] for k, v in op["kwargs"]], "args": [_enc_lit(_lit(a)) for a in op["args"]]}
     now = [_enc_rec(r) for r in res.cfg.applied_filters]
-    strip = (lambda r: {k: v for k, v in r.items() if k != "args"}) if op["kind"] == "custom" else (lambda r: r)
-    if now[:-1] != before or not now or strip(now[-1]) != strip(rec):
+    if now[:-1] != before or not now or now[-1] != rec:
         viol(f"applied_filters of the result is {now}, expected the input's {before} followed by {rec}"); return
     if not (int(res.cfg.n_mazes) == len(res) == len(res.mazes)):
         viol(f"n_mazes of the result is {res.cfg.n_mazes} but it holds {len(res.mazes)} mazes"); return
@@ -473,6 +478,9 @@ def _oracle_step(ctx, case, step, op, snap, others, res, err):
             viol(f"collected metadata is not the exact value count over all mazes: got {got}, expected {want}"); return
         if bool(_params(op)["clear_in_mazes"]) and any(m.generation_meta is not None for m in res.mazes):
             viol("clear_in_mazes=True left generation_meta in a maze"); return
+    if op["kind"] == "reg" and op["name"] == "collect_generation_meta" and snap["gmc"] is not None:
+        if _canon_gmc_real(res.generation_metadata_collected) != snap["gmc"]:
+            viol("collect_generation_meta on an already collected dataset changed the collected metadata"); return
     if op["kind"] == "reg" and op["name"] == "strip_generation_meta" and any(m.generation_meta is not None for m in res.mazes):
         viol("strip_generation_meta left generation_meta in a maze"); return
 
@@ -733,7 +741,7 @@ def _gen_op(rng, lens, grid_n, allow_custom=True):
         return call("remove_duplicates_fast", [], [])
     if r < 0.85:
         return call("strip_generation_meta", [], [])
-    if r < 0.93 or not allow_custom:
+    if r < 0.92 or not allow_custom:
         kw = []
         if rng.random() < 0.4: kw.append(["clear_in_mazes", rng.random() < 0.5])
         if rng.random() < 0.4: kw.append(["inplace", rng.random() < 0.5])
@@ -767,6 +775,24 @@ def _pair_cases():
     ops = [{"kind": "reg", "name": n, "args": p, "kwargs": k} for n, p, k in calls] + [{"kind": "custom", "fname": "lenmod", "kwargs": [["k", 2], ["r", 0]]}]
     for o1, o2 in itertools.product(ops, repeat=2):
         yield {"kind": "seq", "cfg": {"name": "c08pair", "grid_n": 2, "seed": 42}, "items": [dict(x) for x in items], "ops": [o1, o2], "mode": "pairs", "metamode": "fab"}
+
+
+def _regression_cases():
+    """the two repaired defects (keys custom-filter-record-without-args, collect-noop-returns-input), run on every check"""
+    base = next(_pair_cases())
+    reg = lambda n, p=(), k=(): {"kind": "reg", "name": n, "args": list(p), "kwargs": [list(x) for x in k]}
+    cust = lambda k, r: {"kind": "custom", "fname": "lenmod", "kwargs": [["k", k], ["r", r]]}
+    seqs = [
+        [cust(2, 0), reg("truncate_count", [3]), cust(1, 0), reg("path_length", [2])],
+        [cust(2, 0), reg("remove_duplicates_fast"), reg("cut_percentile_shortest", [{"f": 50.0}])],
+        [{"kind": "custom", "fname": "startrow_le", "kwargs": [["x", 1]]}, reg("collect_generation_meta"), reg("strip_generation_meta")],
+        [reg("collect_generation_meta"), reg("collect_generation_meta", (), [("inplace", False)]), reg("path_length", [3])],
+        [reg("collect_generation_meta"), reg("remove_duplicates_fast"), reg("collect_generation_meta", (), [("inplace", False)]),
+         reg("collect_generation_meta")],
+        [reg("collect_generation_meta", (), [("inplace", False), ("clear_in_mazes", False)]), reg("collect_generation_meta", [True, False])],
+    ]
+    for ops in seqs:
+        yield dict(base, items=[dict(x) for x in base["items"]], ops=ops, mode="regression")
 
 
 # ----------------------------------------------------------------------------------------------------------------
@@ -946,6 +972,7 @@ def run(ctx):
     pairs = list(_pair_cases())
     if ctx.quick:
         ctx.rng.shuffle(pairs); pairs = pairs[:60]
+    cases += list(_regression_cases())
     cases += pairs
     cases += [_gen_case(ctx.rng) for _ in range(n_seq)]
     cases += [_gen_cfg_case(ctx.rng) for _ in range(n_cfg)]
@@ -974,10 +1001,10 @@ def run(ctx):
 def search(ctx):
     """oracle-only, wider exploration of the real code; stops at the first violation"""
     warnings.filterwarnings("ignore")
-    for case in _pair_cases():
+    for case in itertools.chain(_regression_cases(), _pair_cases()):
         _run_seq_real(ctx, case, oracle=True, want_model=False)
         ctx.case(_canon_case(case))
-        if any(v["key"] not in KNOWN_KEYS for v in ctx.violations):
+        if ctx.violations:
             return
     for k in range(600 if ctx.quick else 6000):
         case = _gen_case(ctx.rng) if k % 4 else _gen_cfg_case(ctx.rng)
@@ -986,7 +1013,7 @@ def search(ctx):
         else:
             _run_cfg_real(ctx, case, oracle=True, want_model=False)
         ctx.case(_canon_case(case))
-        if any(v["key"] not in KNOWN_KEYS for v in ctx.violations):
+        if ctx.violations:
             return
 
 
